@@ -105,7 +105,9 @@ def search(ck, tier, seed):
              ("DiagonalNormal", normal.DiagonalNormal([3]), [3], None),
              ("ConditionalIndependentBernoulli", discrete.ConditionalIndependentBernoulli([3]), [3], 3),
              ("MADEMoG", mixture.MADEMoG(3, 8, 2, num_mixture_components=2), [3], 2),
-             ("Flow", Flow(MaskedAffineAutoregressiveTransform(3, 8, context_features=2), normal.StandardNormal([3])), [3], 2)]
+             ("Flow", Flow(MaskedAffineAutoregressiveTransform(3, 8, context_features=2), normal.StandardNormal([3])), [3], 2),
+             ("Flow(embedding net)", Flow(MaskedAffineAutoregressiveTransform(3, 8, context_features=4), normal.StandardNormal([3]),
+                                          embedding_net=torch.nn.Linear(2, 4)), [3], 2)]
     for name, d, ev, cf in dists:
         d = d.double().eval()
         g = tgen(seed, "c12d", name)
@@ -124,6 +126,17 @@ def search(ck, tier, seed):
                 r = attempt(d.log_prob, x[i:i + 1], None if c is None else c[i:i + 1])
             if r[0] != "ok" or not close_enough(r[1][0], full[1][i], torch.float64)[0]:
                 ck.finding("batch:log_prob-row-depends-on-other-rows:%s" % name, "%s row %d" % (name, i), {"search": "dist", "class": name})
+                break
+        # sub-batches that are VIEWS of the big batch (same storage, same first address, different strides), one after the other:
+        # rows 0,1,2 and then rows 0,2,4 - anything remembered about "the" context of the previous call must not leak
+        with torch.no_grad():
+            va = attempt(d.log_prob, x[:3], None if c is None else c[:3])
+            vb = attempt(d.log_prob, x[::2], None if c is None else c[::2])
+        for tag, vv, idx in (("rows 0-2 (contiguous view)", va, [0, 1, 2]), ("rows 0,2,4 (strided view)", vb, [0, 2, 4])):
+            if vv[0] == "ok" and not close_enough(vv[1], full[1][idx], torch.float64)[0]:
+                ck.finding("batch:log_prob-row-depends-on-other-rows:view:%s" % name,
+                           "%s: log_prob of %s differs from the same rows in the full batch (max diff %.3g)"
+                           % (name, tag, float((vv[1] - full[1][idx]).abs().max())), {"search": "dist-views", "class": name})
                 break
         if hasattr(d, "transform_to_noise"):
             with torch.no_grad():
@@ -164,7 +177,7 @@ def correspondence(ck, drv, seed):
 
 
 def run(tier, seed):
-    ck = Check("C12", tier, seed, areas=["batch"], gen_groups=["TailWrappers"])
+    ck = Check("C12", tier, seed, areas=["batch"], gen_groups=["TailWrappers", "FlowRows"])
     ck.rule = ("every catalogue transform (evaluation mode, float64, 2-D and image inputs with h != w and c != h) in both "
                "directions, and six distributions / flows: the batch result vs each row evaluated alone (batch size one), vs a "
                "permuted batch, vs the batch embedded among extra rows; bit-exact, falling back to a few ulps for matrix "
